@@ -98,7 +98,7 @@ CLAIMED = {
             "Proof: resource bound for every world/plan/schedule; the reconnect loop does nothing once keep_running is cleared and a server "
             "close frame or close() clears it; retry skeleton and exact interval for failed first attempts followed by any number of failures; C15c.C15_resumes: any number of attempts that each fail OR are established, carry legal traffic and are lost (end of stream, reset, protocol / payload error), in any mix, then a connection the server closes: the exact network skeleton (sleep r starting at the tick of the loss, the transport a reset or refused frame left open released before the next dial, dial exactly r later, one connection at a time), return value True. "
             "The external dispatcher is not modelled (real runs + Spec only); the former findings F16 (exceptions under an external dispatcher) and F18 (close() from another thread during the reconnect delay was followed by one more connection attempt; /repo 8a1f51a, generated fact appReconnectGuard) are repaired in /repo.", "", "DESIGN.md §6 C15"),
-    "C16": ("Lean 4 theorems C16_args (iff), C16_periodic, C16_no_false_positive (all arrival patterns/schedules), C16_detect (every accepted pair), C16b.C16_ping_payload (every ping of every run carries ping_payload), C16c.checkTorn_single / C16_single_read_* (check() reads the concurrently written stamp once: generated fact; = the modelled atomic predicate)" + T_CORR + " in virtual time, incl. the loop thread preempted at every line of check() at ping ticks",
+    "C16": ("Lean 4 theorems C16_args (iff), C16_periodic, C16_no_false_positive (all arrival patterns/schedules), C16_detect (every accepted pair), C16b.C16_ping_payload (every ping of every run carries ping_payload), C16c.checkTorn_single / C16_single_read_* (check() reads the concurrently written stamp once: generated fact; = the modelled atomic predicate), C16c.C16_stamps_linearizable (the two guarded stamp writes commute with a preemption between test and assignment)" + T_CORR + " in virtual time, incl. the loop thread preempted at every line of check() at ping ticks",
             "Proof: argument validation exactly as documented and before connecting; pings at start+k*iv; a peer answering every ping within "
             "the timeout is never reported; a peer that stops answering is reported within (T+to, T+2*to] of the first unanswered ping T for "
             "every accepted pair; every PING written carries the configured payload (invariant through all functions of the App model). The "
